@@ -104,6 +104,7 @@ func oneDocsCache(r *rng.R, rl *disk.ReadLimiter, path string, idx int) (result,
 		}
 	}
 	var blocks []dcBlock
+	var corrupt []uint64 // offsets of blocks that cannot be decoded (zstd codec, garbage body): a read is an error
 	aliased := false
 	for _, x := range xs {
 		// the documents of every block of this column have the same lengths (so that another block of the
@@ -130,7 +131,21 @@ func oneDocsCache(r *rng.R, rl *disk.ReadLimiter, path string, idx int) (result,
 		if len(ks) > 1 {
 			aliased = true
 		}
-		for _, k := range ks {
+		for ki, k := range ks {
+			if len(ks) > 1 && ki == r.Intn(6*len(ks)) && (len(blocks) > 0 || ki+1 < len(ks)) {
+				// malformed: this block of the column does not decode (below 4 GiB the failed load goes through the cache)
+				junk := make([]byte, r.Range(8, 60))
+				for q := range junk {
+					junk[q] = byte(r.Intn(256))
+				}
+				blk := disk.PackDocBlock(junk, nil)
+				blk.SetCodec(disk.CodecZSTD)
+				if _, err := f.WriteAt(blk, int64(x+k*two32)); err != nil {
+					return result{}, fmt.Errorf("harness: sparse write at %d: %w", x+k*two32, err)
+				}
+				corrupt = append(corrupt, x+k*two32)
+				continue
+			}
 			b := dcBlock{Off: x + k*two32, No: uint64(len(blocks) + 1)}
 			ls := lens
 			if ragged {
@@ -211,7 +226,7 @@ func oneDocsCache(r *rng.R, rl *disk.ReadLimiter, path string, idx int) (result,
 
 	type opRec struct {
 		Op   string   `json:"op"`
-		Off  uint64   `json:"offset,omitempty"`
+		Off  *uint64  `json:"offset,omitempty"`
 		Keys []uint32 `json:"evicted_keys,omitempty"`
 	}
 	var (
@@ -225,7 +240,7 @@ func oneDocsCache(r *rng.R, rl *disk.ReadLimiter, path string, idx int) (result,
 		var rerr error
 		pn := guard(func() { docs, rerr = rd.ReadDocs(off, starts) })
 		ops = append(ops, fmt.Sprintf("DRead %d", off))
-		recs = append(recs, opRec{Op: "read", Off: off})
+		recs = append(recs, opRec{Op: "read", Off: &off})
 		switch {
 		case pn != "":
 			impl = append(impl, fmt.Sprintf("Some %d", dcPanicked))
@@ -267,12 +282,23 @@ func oneDocsCache(r *rng.R, rl *disk.ReadLimiter, path string, idx int) (result,
 					readBlock(b) // again, now from the cache (if it is cached)
 				}
 			}
-		case k == 8: // past the end of the file: a read error, nothing cached
+		case k == 8: // past the end of the file or a block that does not decode: a read error, nothing cached
 			off := fileEnd + uint64(r.Intn(1000))
 			if r.Bool() {
 				off = rng.Pick(r, blocks).Off + 4*two32 // shares its low 32 bits with a block
 			}
+			if len(corrupt) > 0 && r.Chance(2, 3) {
+				off = rng.Pick(r, corrupt)
+			}
 			read(off, []uint64{0})
+			if r.Bool() { // and then a block whose offset has the same low 32 bits
+				for _, b := range blocks {
+					if b.Off%two32 == off%two32 {
+						readBlock(b)
+						break
+					}
+				}
+			}
 		case k == 9 && cl != nil: // a cleaner pass as the cache maintainer does it
 			before := c.VerifC04Keys()
 			cl.Rotate()
@@ -314,8 +340,11 @@ func oneDocsCache(r *rng.R, rl *disk.ReadLimiter, path string, idx int) (result,
 	if aliased {
 		counts = append(counts, "docs-cache:aliased-offsets")
 	}
+	if len(corrupt) > 0 {
+		counts = append(counts, "docs-cache:undecodable-block")
+	}
 	return result{coq: coq, class: "docs-cache-far-offset", nontrivial: aliased,
-		input:  map[string]any{"case": idx, "blocks": blocks, "cache_limit": limit, "ops": recs, "file_size": fileEnd},
+		input:  map[string]any{"case": idx, "blocks": blocks, "undecodable_blocks_at": corrupt, "cache_limit": limit, "ops": recs, "file_size": fileEnd},
 		impl:   map[string]any{"reads": reads, "keys_at_end": keys},
 		counts: counts}, nil
 }
